@@ -7,6 +7,7 @@ From Utp Require Import Base.Prelude Wire.SeqNr Rtt.Rtte.
 From Utp Require Import Wire.Header Mtu.SegSizes.
 From Utp Require Import Rx.Rx Tx.Segments Tx.Ring.
 From Utp Require Import Cubic.F64 Cubic.Cubic Cubic.Libm.
+From Utp Require Import Sock.Dispatcher.
 From Utp Require Import Conn.Recovery Conn.Msg Conn.VSockRec Conn.VSock Conn.VSockRun Conn.VObs.
 
 Extraction Language OCaml.
@@ -21,6 +22,7 @@ Extraction "model"
   deserialize serialize msg_deserialize sack_new sack_deserialize c11_de_ok c11_msg_ok c11_ser_ok
   fevent_of fp_of_vsock ftrace
   vsock_new_cubic vtrace_cubic retransmission_timeout roundtrip_time cubic_window cubic_sshthresh
-  ss_new ss_trace mtu_search c14_ok c14_search_ok segsizes_cfg_ok
+  ss_new ss_trace mtu_search c14_ok c14_search_ok segsizes_cfg_ok mtu_d3 c14_d3_ok
   IPV4_HEADER IPV6_HEADER UDP_HEADER
+  dstate_new dstep drun dtrace cleanup_accept_queue push_acceptor
   cubic_new cubic_trace c15_obs_ok c15_obs_core f64_view BETA_CUBIC C_CUBIC cbrt_cr.
